@@ -39,7 +39,6 @@ import (
 	"github.com/lyraproj/issue/issue"
 	"github.com/lyraproj/pcore/px"
 	"github.com/lyraproj/pcore/types"
-	"github.com/lyraproj/semver/semver"
 )
 
 func init() {
@@ -167,14 +166,13 @@ func valOf(e sx.Sexp) px.Value {
 		return types.WrapTimespan(time.Duration(a[0].MustInt()))
 	case "tm":
 		return types.WrapTimestamp(time.Unix(a[0].MustInt(), a[1].MustInt()).UTC())
-	case "uri":
-		return types.WrapURI2(a[0].MustStr())
-	case "ver":
-		return types.WrapSemVer(semver.MustParseVersion(a[0].MustStr()))
 	case "sens":
 		return types.WrapSensitive(valOf(a[0]))
 	case "t":
 		return typeOf(a[0])
+	}
+	if v, ok := kindValOf(e); ok {
+		return v
 	}
 	panic(fmt.Errorf("bad value %s", e))
 }
@@ -249,6 +247,9 @@ func valStr(v px.Value) string {
 	if m, ok := v.(*types.MutableHashValue); ok {
 		v = &m.Hash
 	}
+	if s, ok := kindValStr(v); ok {
+		return s
+	}
 	switch v := v.(type) {
 	case *types.UndefValue:
 		return "(u)"
@@ -284,8 +285,6 @@ func valStr(v px.Value) string {
 		return fmt.Sprintf("(tm %d %d)", v.Time().Unix(), v.Time().Nanosecond())
 	case *types.UriValue:
 		return "(uri " + sx.Str(v.URL().String()).Atom + ")"
-	case *types.SemVer:
-		return "(ver " + sx.Str(v.Version().String()).Atom + ")"
 	case px.Type:
 		return "(t " + typeStr(v) + ")"
 	}
@@ -332,6 +331,7 @@ func force(v px.Value) {
 	_ = safely(func() { _ = v.PType() })
 	_ = safely(func() { _ = px.DetailedValueType(v) })
 	_ = safely(func() { _ = px.ToKey(v) })
+	forceKind(v)
 	if h, ok := asHash(v); ok {
 		v = h
 	}
@@ -409,7 +409,7 @@ func hashKeysKeyable(e sx.Sexp) bool {
 }
 
 func noSens(e sx.Sexp) bool {
-	if e.Tag() == "sens" {
+	if noKeyTag(e.Tag()) { // a Sensitive, or a kind that has no ToKey either (TypedName, Deferred, Parameter)
 		return false
 	}
 	for _, k := range e.List {
@@ -644,7 +644,7 @@ func tagsOf(es ...sx.Sexp) []string {
 func interesting(es ...sx.Sexp) bool {
 	for _, e := range es {
 		switch e.Tag() {
-		case "a", "h", "mh", "e", "t", "s", "x", "r", "sens":
+		case "a", "h", "mh", "e", "t", "s", "x", "r", "sens", "uri", "ver", "vmin", "vr", "tn", "df", "par":
 			return true
 		}
 	}
@@ -659,13 +659,31 @@ func pairFail(out, law, detail string, ex, ey sx.Sexp, x, y px.Value) core.Resul
 		class = "raw-string-key"
 	case law == "key-differs-for-equal" && memberOrder(ex, ey):
 		class = "type-member-order"
+	case law == "key-differs-for-equal" && rangeOriginal(ex, ey):
+		class = "range-original-key"
 	}
 	return core.Fail(out, class, law+": "+detail)
 }
 
 // ---- ops ---------------------------------------------------------------------------------------------------
 
-func exec(c px.Context, op string, args []sx.Sexp) core.Result {
+func exec(c px.Context, op string, args []sx.Sexp) (res core.Result) {
+	defer func() {
+		if e := recover(); e != nil {
+			switch e := e.(type) {
+			case badOp: // an operand that the constructors reject (semver.NewVersion3 error): `bad-op` on both sides
+				res = core.Result{Out: "bad-op", Pred: "n/a", NonTrivial: true, Tags: []string{"bad-operand"}}
+			case rangeMismatch: // the op line states ranges the implementation does not parse its string to: a generator bug
+				res = core.Fail("bad-op", "harness-range-mismatch", e.why)
+			default:
+				panic(e)
+			}
+		}
+	}()
+	return exec1(c, op, args)
+}
+
+func exec1(c px.Context, op string, args []sx.Sexp) core.Result {
 	switch op { // the implementation-only twins run the very same predicates
 	case "veq", "veq3", "vkey", "vget", "vunique":
 		op = op[1:]
@@ -737,6 +755,20 @@ func exec(c px.Context, op string, args []sx.Sexp) core.Result {
 		}
 		kx, okx := keyOf(x)
 		ky, oky := keyOf(y)
+		if !keyableSexp(ex) || !keyableSexp(ey) {
+			// a TypedName, Deferred or Parameter (or a container of one) has no hash key at all: px.ToKey must report
+			// INVALID_MAP_KEY for it, and only the equivalence laws above apply
+			for _, p := range []struct {
+				e sx.Sexp
+				o string
+			}{{ex, okx}, {ey, oky}} {
+				if !keyableSexp(p.e) && p.o != "reported PCORE_INVALID_MAP_KEY" {
+					return pairFail(out, "key-of-unkeyable", "ToKey of "+p.e.String()+": "+p.o, ex, ey, x, y)
+				}
+			}
+			res.Tags = append(res.Tags, "no-key-kind")
+			return res
+		}
 		if !strings.HasPrefix(okx, "x") || !strings.HasPrefix(oky, "x") {
 			return pairFail(out, "key-fault", "ToKey of a comparable value: "+okx+" / "+oky, ex, ey, x, y)
 		}
@@ -785,8 +817,11 @@ func exec(c px.Context, op string, args []sx.Sexp) core.Result {
 		if _, out3 := keyOf(valOf(args[0])); out3 != out {
 			return core.Fail(out, "state-dependent", "key of a separately built copy "+out3)
 		}
-		if comparable(args[0]) && !strings.HasPrefix(out, "x") {
+		if comparable(args[0]) && keyableSexp(args[0]) && !strings.HasPrefix(out, "x") {
 			return core.Fail(out, "key-fault", "ToKey of a comparable value: "+out)
+		}
+		if !keyableSexp(args[0]) && out != "reported PCORE_INVALID_MAP_KEY" {
+			return core.Fail(out, "key-of-unkeyable", "ToKey of a value without a hash key: "+out)
 		}
 		return res
 	case "get":
@@ -800,7 +835,7 @@ func exec(c px.Context, op string, args []sx.Sexp) core.Result {
 		var found bool
 		if err := safely(func() { got, found = h.Get(k) }); err != nil {
 			out := errClass(err)
-			if comparable(args[0]) && comparable(args[1]) {
+			if comparable(args[0]) && comparable(args[1]) && keyableSexp(args[0]) && keyableSexp(args[1]) {
 				return core.Fail(out, "get-fault", "Hash.Get of a comparable key")
 			}
 			return core.Result{Out: out, Pred: "n/a", NonTrivial: true, Tags: []string{"get:fault"}}
@@ -846,6 +881,8 @@ func exec(c px.Context, op string, args []sx.Sexp) core.Result {
 				class = "raw-string-key"
 			} else if order && !found {
 				class = "type-member-order"
+			} else if !found && rangeOriginal(args[0], args[1]) {
+				class = "range-original-key"
 			}
 			return core.Fail(out, class, fail)
 		}
@@ -859,7 +896,7 @@ func exec(c px.Context, op string, args []sx.Sexp) core.Result {
 		var u px.List
 		if err := safely(func() { u = a.Unique() }); err != nil {
 			out := errClass(err)
-			if comparable(args[0]) {
+			if comparable(args[0]) && keyableSexp(args[0]) {
 				return core.Fail(out, "unique-fault", "Unique over comparable values")
 			}
 			return core.Result{Out: out, Pred: "n/a", NonTrivial: true, Tags: []string{"unique:fault"}}
@@ -916,12 +953,17 @@ func exec(c px.Context, op string, args []sx.Sexp) core.Result {
 				class = "raw-string-key"
 			} else if memberOrder(args[0]) && strings.HasPrefix(fail, "kept apart") {
 				class = "type-member-order"
+			} else if rangeOriginal(args[0]) && strings.HasPrefix(fail, "kept apart") {
+				class = "range-original-key"
 			}
 			return core.Fail(out, class, fail)
 		}
 		return res
 	case "teq", "teq3":
 		return execTypes(c, op, args)
+	case "vrcheck": // implementation only: the stated ranges are what the string parses to (rangeOf panics otherwise)
+		rangeOf(args)
+		return core.Result{Out: "ok", Pred: "ok", NonTrivial: true, Tags: []string{"vrcheck"}}
 	}
 	return core.Result{Out: "bad-op", Pred: "FAIL harness-bad-op " + op}
 }
@@ -1188,6 +1230,9 @@ func randType(r *rand.Rand, depth int) string {
 }
 
 func randLeaf(r *rand.Rand) sx.Sexp {
+	if r.Intn(8) == 0 {
+		return randKind(r, 1)
+	}
 	switch r.Intn(14) {
 	case 12:
 		return sx.T("ts", sx.Int([]int64{0, 1, 999999999, 1000000000, 1500000000, -1, -1000000000, -1500000000, 86400000000000, math.MaxInt64, math.MinInt64}[r.Intn(11)]))
@@ -1262,6 +1307,9 @@ func randVal(r *rand.Rand, depth int) sx.Sexp {
 // mutate: a one-point mutation of the tree, or a related value of another shape
 func mutate(r *rand.Rand, e sx.Sexp) sx.Sexp {
 	a := e.Args()
+	if m, ok := mutateKind(r, e); ok {
+		return m
+	}
 	switch e.Tag() {
 	case "a":
 		switch r.Intn(7) {
@@ -1473,6 +1521,9 @@ func equalVariant(r *rand.Rand, e sx.Sexp) sx.Sexp {
 		}
 	case "t":
 		return sx.T("t", equalType(r, a[0]))
+	}
+	if m, ok := equalKind(r, e); ok {
+		return m
 	}
 	return e
 }
@@ -1878,30 +1929,59 @@ func gen(g *core.G) {
 		a, b, cc := typeExprs[r.Intn(len(typeExprs))], typeExprs[r.Intn(len(typeExprs))], typeExprs[r.Intn(len(typeExprs))]
 		g.Emit("@teq3 " + sx.Str(a).Atom + " " + sx.Str(b).Atom + " " + sx.Str(cc).Atom)
 	}
-	// implementation-only: the value kinds without a model counterpart, crossed with each other and with core values,
-	// bare, as array elements and as hash keys
-	extra := []sx.Sexp{
-		mk("(ts 0)"), mk("(ts 1)"), mk("(ts 1000000000)"), mk("(ts 1500000000)"), mk("(ts -1000000000)"), mk("(ts 86400000000000)"),
-		mk("(tm 0 0)"), mk("(tm 0 1)"), mk("(tm 1 0)"), mk("(tm 1 500000000)"), mk("(tm -1 0)"), mk("(tm 1500000000 999999999)"),
-		sx.T("uri", sx.Str("http://example.com/a")), sx.T("uri", sx.Str("http://example.com/b")), sx.T("uri", sx.Str("file:///tmp/x")), sx.T("uri", sx.Str("http://example.com/a?q=1")),
-		sx.T("ver", sx.Str("1.0.0")), sx.T("ver", sx.Str("1.0.1")), sx.T("ver", sx.Str("1.0.0-rc1")), sx.T("ver", sx.Str("1.0.0+b1")), sx.T("ver", sx.Str("1.0.0+b2")),
-		iv(0), iv(1), fv(1), sv("1.0.0"), sv("http://example.com/a"), av(), hv(),
-	}
-	for _, x := range extra {
-		g.Emit("@vkey " + x.String())
-		for _, y := range extra {
-			g.Emit("@veq " + x.String() + " " + y.String())
-			g.Emit("@veq " + av(x, iv(1)).String() + " " + av(y, iv(1)).String())
-			g.Emit("@vunique " + av(x, y, x).String())
-			g.Emit("@vget " + hv(x, iv(1)).String() + " " + y.String())
-			if s, ok := keyImage(x); ok {
-				g.Emit("@veq " + av(s).String() + " " + av(y).String())
+	// the kinds brought inside the model in the extension round (URI, SemVer, SemVerRange, TypedName, Deferred, Parameter):
+	// every ordered pair over their universe, bare, as array elements and as hash keys; crossed with a core of the old kinds;
+	// a string holding the key bytes of each (the raw-string class)
+	ku := kindUniverse()
+	for _, row := range rangeTable() { // the range table itself: the stated ranges are what each spelling parses to
+		for _, o := range row.origs {
+			line := "@vrcheck " + sx.Str(o).Atom
+			for _, rg := range row.rs {
+				line += " " + rg.String()
 			}
+			g.Emit(line)
+		}
+	}
+	for _, x := range ku {
+		g.Emit("key " + x.String())
+		g.Emit("key " + av(x, iv(1)).String())
+		for _, y := range ku {
+			g.Emit("eq " + x.String() + " " + y.String())
+			g.Emit("eq " + av(x, iv(1)).String() + " " + av(y, iv(1)).String())
+			g.Emit("unique " + av(x, y, x).String())
+			if keyableSexp(x) {
+				g.Emit("get " + hv(x, iv(1)).String() + " " + y.String())
+			}
+		}
+		for _, y := range kindCore() {
+			g.Emit("eq " + x.String() + " " + y.String())
+			g.Emit("eq " + y.String() + " " + x.String())
+			g.Emit("unique " + av(x, y, x).String())
+			if keyableSexp(y) {
+				g.Emit("get " + hv(y, iv(1)).String() + " " + x.String())
+			}
+		}
+		if s, ok := keyImage(x); ok {
+			g.Emit("eq " + s.String() + " " + x.String())
+			g.Emit("eq " + av(s).String() + " " + av(x).String())
+			g.Emit("unique " + av(x, s).String())
+			g.Emit("get " + hv(x, iv(1)).String() + " " + s.String())
 		}
 	}
 	for i := 0; i < 3000*g.Scale; i++ {
-		g.Emit("@veq3 " + extra[r.Intn(len(extra))].String() + " " + extra[r.Intn(len(extra))].String() + " " + extra[r.Intn(len(extra))].String())
+		g.Emit("eq3 " + ku[r.Intn(len(ku))].String() + " " + ku[r.Intn(len(ku))].String() + " " + ku[r.Intn(len(ku))].String())
 	}
+	// versions the constructor rejects (malformed stream: the model of the two anchored regexps against the real ones)
+	for _, p := range append(append([]string{}, badPreStrs...), preStrs...) {
+		g.Emit("key " + verS(1, 0, 0, p, "").String())
+		g.Emit("eq " + verS(1, 0, 0, p, "").String() + " " + verS(1, 0, 0, "", "").String())
+	}
+	for _, b := range append(append([]string{}, badBuildStrs...), buildStrs...) {
+		g.Emit("key " + verS(1, 0, 0, "", b).String())
+	}
+	g.Emit("key " + verS(-1, 0, 0, "", "").String())
+	g.Emit("key " + verS(0, -1, 0, "", "").String())
+	g.Emit("key " + verS(0, 0, -1, "", "").String())
 	// length-field boundaries with their regrouped / forged counterparts
 	boundaryShapes(g)
 	// fixed-width payloads at wrap-around distances
